@@ -83,6 +83,9 @@ def owner_of(tag, events, idx):
         j = idx - 1
         while j >= 0 and events[j].get("ev") != "Reset":
             if events[j].get("ev") in FAULT_EVENTS:
+                if "alias" in events[j]:
+                    # what follows a response under an out-of-range message ID that aliases a live one is routing's business
+                    return ("C01", "C11")
                 return "C04"
             j -= 1
         if ev.get("r") == "timeout":
